@@ -161,6 +161,15 @@ fn run(prop: &str, tier: Tier, replay: Option<String>) -> i32 {
         // Quick: B = 0,1,2 always complete in seconds; where B = 2 is cheap a third deviation is
         // attempted under a short wall cap (evidence reports the largest *completed* bound and, if
         // the cap cut a round, where). Thorough: one more deviation under a 20 minute cap.
+        let mut extra = BTreeMap::new();
+        let mut extra_failures = vec![];
+        if prop == "C18" {
+            // the OpenTelemetry regime: canonical runs of every chain shape, serially under one
+            // subscriber (trace ids are then chosen by the tracer, so only consistency is checked)
+            let (cells, fails) = chain_props::c18_otel_grid(tier);
+            extra.insert("otel_regime_cells".to_string(), serde_json::json!(cells));
+            extra_failures = fails;
+        }
         let cheap = matches!(prop, "C03" | "C05" | "C18");
         let bounds = match tier {
             Tier::Quick if cheap => vec![0, 1, 2, 3],
@@ -180,7 +189,8 @@ fn run(prop: &str, tier: Tier, replay: Option<String>) -> i32 {
                 "a completed dispatch future is dropped (as tokio::spawn/join!/select! do)".into(),
                 "cross-thread interleavings are covered at the granularity of whole polls plus the yield points inside the call guard's drop".into(),
             ],
-            extra: BTreeMap::new(),
+            extra,
+            extra_failures,
         };
         let refs: Vec<&dyn explore::Harness> = parts.iter().map(|b| b.as_ref()).collect();
         return run_parts(&refs, spec);
